@@ -71,6 +71,16 @@ CLAIMS = {
          "Correspondence: reference_impl::Hasher driven with splits and output lengths vs the extracted model.",
          "vm_compute is used for the test-vector equalities (a kernel conversion); reference constants translated from reference_impl.rs.",
          "Coq proof (refinement by induction + in-kernel evaluation of all published vectors) + correspondence"),
+ "C05": ("Coq theorems (Props/C05.v): executable models of the SIMD kernel ALGORITHMS (lane-parallel hash4/8/16 with "
+         "transposed loads/stores, four load_counters variants incl. the carry tricks of the C/asm code, the batch/remainder "
+         "cascades of every back end, row-vectorised compress with diagonalisation, lane-parallel xof) equal the portable "
+         "kernel for all arguments, giving PlatformOK for SSE2/SSE4.1/AVX2/AVX-512 (and FFI flavours); portable = spec "
+         "compression. Correspondence at kernel level for EVERY executable flavour (Rust asm/intrinsics/pure builds, C "
+         "intrinsics, Unix assembly, Windows-GNU assembly via ms_abi) against the extracted portable model: block_len 0..64, "
+         "flags 0..255, counters around 2^32/2^63/2^64, num_inputs 0..2*degree+1, alignments, xof 1..35 blocks.",
+         "Partial: the assembly and intrinsics CODE is not modelled instruction by instruction (no ISA semantics installed): "
+         "the algorithm is proved, the code is tied by correspondence only. SSE2's blend emulation is not proved equal to lane selection.",
+         "Coq proof of the kernel algorithms + kernel-level correspondence of every flavour"),
  "C02": ("Coq theorems (Props/C02.v) about the Hasher model; correspondence on random histories, exhaustive short 2-splits, "
          "Write/update_reader, all modes, every forced SIMD level.",
          "Proved: any update sequence over any number of instances with clone/reset/finalize/finalize_xof/count interleaved "
